@@ -48,7 +48,11 @@ def gen_history(rng, nops):
                     add(["compile", sid, True, rng.choice(["default", "fast"]), True], ("unbound", sid))
                 continue
             tc = rng.random() < 0.85
-            add(["compile", sid, tc, rng.choice(["default", "default", "fast"]), rng.random() < 0.8], ("qf", sid, tc))
+            if rng.random() < 0.2 and not sid.startswith("shadow"):
+                deco = rng.random() < 0.4
+                add(["compile_callable", sid, "default", deco], ("qf", sid, True))
+            else:
+                add(["compile", sid, tc, rng.choice(["default", "default", "fast"]), rng.random() < 0.8], ("qf", sid, tc))
         elif r < 0.42:
             i = pick(lambda k: k[0] == "qf" and k[1] in ("ident", "inc"))
             if i is not None:
@@ -163,6 +167,8 @@ CORPUS = [
     [["compile", "shadow_inspect", True, "default", True], ["compile", "tuple", True, "default", True], ["encode_decode", 1]],
     [["compile", "and", True, "default", True], ["compile", "and_other_body", True, "default", True], ["defs", "caller_f", 0], ["defs", "caller_f", 1], ["truth_table", 2]],
     [["compile", "ident", True, "default", True], ["defs", "caller_g", 0], ["compile", "inc", True, "default", True], ["defs", "caller_g", 2], ["defs", "caller_g", 0]],
+    [["compile_callable", "cmp", "default", False], ["compile", "cmp", True, "default", True], ["compile_callable", "cmp", "default", True], ["grover", 0, None], ["export", 2, "qasm", "circuit"]],
+    [["compile_callable", "add", "default", True], ["compile_callable", "tuple", "default", False], ["truth_table", 0], ["decompile", 1]],
     [["compile", "inc", True, "default", True], ["defs", "param_caller", 0], ["bind", 1, {"c": 1}], ["bind", 1, {"c": 2}], ["bind", 1, {"c": 1}], ["truth_table", 3]],
     [["compile", "param_all", True, "default", True], ["bind", 0, {"c": [True, True, True]}], ["bind", 0, {"c": [True, False, True]}], ["bind", 0, {"c": [True, True, True]}], ["truth_table", 2]],
     [["compile", "param_sum", True, "default", True], ["bind", 0, {"c": [1, 2]}], ["bind", 0, {"c": [0, 0]}], ["truth_table", 2], ["bind", 0, {"c": [3, 3]}]],
